@@ -262,7 +262,9 @@ def run(tier, seed):
     prev = None
     for k, (x, ti, t, text, exp) in enumerate(jobs):
         cfg = x["cfg"]
-        path = os.path.join(wd, "gen-%d.%s" % (k, cfg["kind"]))
+        # one file NAME for all files of a kind, rewritten in place (what a refinement loop does): what was parsed from that path before
+        # must not be served again
+        path = os.path.join(wd, "current.%s" % cfg["kind"])
         with open(path, "w") as f:
             f.write(text)
         nfiles += 1
